@@ -24,6 +24,7 @@ import (
 	"os"
 	"path/filepath"
 	"strings"
+	"sync"
 	"testing"
 	"testing/synctest"
 	"time"
@@ -67,8 +68,11 @@ func runTimeline(t *testing.T, base string, n int, tl timeline) {
 	bad := func(format string, a ...any) {
 		t.Fatalf("REPLAY-COUNTEREXAMPLE\nhistory:\n  %s\nproblem: %s", strings.Join(hist, "\n  "), fmt.Sprintf(format, a...))
 	}
+	var mu sync.Mutex
 	var problem string // set inside the bubble, reported outside
 	fail := func(format string, a ...any) {
+		mu.Lock()
+		defer mu.Unlock()
 		if problem == "" {
 			problem = fmt.Sprintf(format, a...)
 		}
@@ -104,7 +108,8 @@ func runTimeline(t *testing.T, base string, n int, tl timeline) {
 				if n <= len(tl.outcomes) {
 					o = tl.outcomes[n-1]
 				}
-				a := attempt{at: time.Since(start), outcome: o}
+				attempts = append(attempts, attempt{at: time.Since(start), outcome: o, took: -1})
+				idx := len(attempts) - 1
 				hist = append(hist, fmt.Sprintf("%s: upload attempt %d -> %s", at(), n, o))
 				var status int
 				var err error
@@ -124,8 +129,7 @@ func runTimeline(t *testing.T, base string, n int, tl timeline) {
 					err = reqCtx.Err()
 					hist = append(hist, fmt.Sprintf("%s: the hanging upload was abandoned", at()))
 				}
-				a.took = time.Since(start) - a.at
-				attempts = append(attempts, a)
+				attempts[idx].took = time.Since(start) - attempts[idx].at
 				return status, err
 			}
 			done := make(chan struct{})
@@ -181,8 +185,12 @@ func runTimeline(t *testing.T, base string, n int, tl timeline) {
 				}
 			}
 			for i, a := range attempts {
-				if a.outcome == "hangs" && a.took > 5*time.Minute {
-					fail("upload %d was left hanging for %v: a backup must be abandoned after five minutes", i+1, a.took)
+				took := a.took
+				if took < 0 { // still in flight
+					took = time.Since(start) - a.at
+				}
+				if a.outcome == "hangs" && took > 5*time.Minute {
+					fail("upload %d was left hanging for %v: a backup must be abandoned after five minutes", i+1, took)
 				}
 			}
 			if len(attempts) == 0 {
@@ -220,6 +228,12 @@ func runTimeline(t *testing.T, base string, n int, tl timeline) {
 			bad("panic: %v", p)
 		}
 	case <-time.After(10 * time.Second):
+		mu.Lock()
+		p := problem
+		mu.Unlock()
+		if p != "" {
+			bad("%s", p) // and the task never returned
+		}
 		bad("virtual time cannot advance: the backup task does not sleep (it spins on the database), and it ignores cancellation")
 	}
 	if problem != "" {
@@ -238,7 +252,7 @@ func runTimeline(t *testing.T, base string, n int, tl timeline) {
 }
 
 func timingScenarios(t *testing.T, focus string) {
-	rng := rand.New(rand.NewSource(2))
+	rng := rand.New(rand.NewSource(replaySeed() + 1))
 	n := 60
 	if f := strings.ToLower(focus); strings.Contains(f, "backup") {
 		n = 200
